@@ -52,16 +52,23 @@ Fixpoint lower (s : string) : string :=
   end.
 
 (** * Registry with the case-insensitive index and the parse cache *)
-(** registry options and the one defect switch of this layer:
+(** registry options and the two defect switches of this layer (both off = the unchanged code):
     [c_symexact] = [get_symbol] looks for an exact entry first (the proposed repair of F45);
-    the unchanged code never does. *)
-Record cfg := Cfg { c_case : bool; c_delta : bool; c_symexact : bool }.
-Definition default_cfg : cfg := Cfg true true false.
+    [c_lazyfix]  = lazily registered prefix+unit names are definitions but not spellings: name
+                   parsing and the exact lookup skip them, and registration never replaces an entry
+                   (the proposed repair of F3 / F46 / F47 / F48). *)
+Record cfg := Cfg { c_case : bool; c_delta : bool; c_symexact : bool; c_lazyfix : bool }.
+Definition default_cfg : cfg := Cfg true true false false.
 
 Record nreg := NReg {
   n_reg : reg;
   n_casei : gmap string (list string);   (* lower-cased spelling ↦ real spellings; no lazily added names *)
-  n_cache : gmap string uc }.            (* [_cache.parse_unit] *)
+  n_cache : gmap string uc;              (* [_cache.parse_unit] *)
+  n_lazy : list string }.                (* names registered by [get_name] (and while building) *)
+(** the spellings hidden from name parsing *)
+Definition nohid : string → bool := λ _, false.
+Definition n_hid (nr : nreg) (c : cfg) : string → bool :=
+  if c_lazyfix c then (λ k, existsb (String.eqb k) (n_lazy nr)) else nohid.
 
 Definition casei_add (k : string) (m : gmap string (list string)) : gmap string (list string) :=
   <[lower k := k :: default [] (m !! lower k)]> m.
@@ -71,10 +78,13 @@ Definition casei_index (r : reg) : gmap string (list string) :=
 (** the registry as constructed: definitions loaded (the index is complete at that point), then
     [_build_cache], whose lazily registered names do not enter the index *)
 Definition nload (ds : list rawdef) : res nreg :=
-  r ←r elab ds; Ok (NReg (build_cache r) (casei_index r) ∅).
+  r ←r elab ds;
+  let r' := build_cache r in
+  Ok (NReg r' (casei_index r) ∅
+           (filter (λ k, bool_decide (r_units r !! k = None)) (map fst (map_to_list (r_units r'))))).
 
 Definition nreg_of (ds : list rawdef) : nreg :=
-  match nload ds with Ok nr => nr | Err _ => NReg empty_reg ∅ ∅ end.
+  match nload ds with Ok nr => nr | Err _ => NReg empty_reg ∅ ∅ [] end.
 
 (** * Candidate enumeration with the case-sensitivity flag: [_yield_unit_triplets] *)
 Definition strip_name (s pk suffix : string) : string :=
@@ -84,12 +94,12 @@ Definition strip_name (s pk suffix : string) : string :=
 Definition plural_guard (suffix name : string) : bool :=
   negb (String.eqb suffix "") && Nat.eqb (ulen name) 1.
 
-Definition lookup_defs (nr : nreg) (cs : bool) (name : string) : list udef :=
-  if cs then match r_units (n_reg nr) !! name with Some d => [d] | None => [] end
+Definition lookup_defs (nr : nreg) (hid : string → bool) (cs : bool) (name : string) : list udef :=
+  if cs then (if hid name then [] else match r_units (n_reg nr) !! name with Some d => [d] | None => [] end)
   else omap (λ real, r_units (n_reg nr) !! real) (default [] (n_casei nr !! lower name)).
 
 (** (the test on the suffix does not depend on the prefix: it is made once per suffix) *)
-Definition triplets_cs (nr : nreg) (cs : bool) (s : string) : list (string * string) :=
+Definition triplets_cs (nr : nreg) (hid : string → bool) (cs : bool) (s : string) : list (string * string) :=
   flat_map (λ suffix,
     if ends_with suffix s then
       flat_map (λ pk,
@@ -97,21 +107,25 @@ Definition triplets_cs (nr : nreg) (cs : bool) (s : string) : list (string * str
           let name := strip_name s pk suffix in
           if plural_guard suffix name then []
           else match r_prefixes (n_reg nr) !! pk with
-               | Some p => map (λ d, (p_name p, u_name d)) (lookup_defs nr cs name)
+               | Some p => map (λ d, (p_name p, u_name d)) (lookup_defs nr hid cs name)
                | None => []
                end
         else []) (r_prefix_keys (n_reg nr))
     else []) suffixes.
 
-Definition n_cand (nr : nreg) (cs : bool) (s : string) : list (string * string) :=
-  dedup_candidates (triplets_cs nr cs s).
+Definition n_cand (nr : nreg) (hid : string → bool) (cs : bool) (s : string) : list (string * string) :=
+  dedup_candidates (triplets_cs nr hid cs s).
 
 (** * Resolution, generic in the candidate function *)
 Section Resolve.
-  Context (r : reg) (symexact : bool) (cand : string → list (string * string)).
+  Context (r : reg) (symexact : bool) (hid : string → bool) (noreplace : bool)
+          (cand : string → list (string * string)).
+
+  (** the exact entry, unless the spelling is hidden *)
+  Definition g_exact (s : string) : option udef := if hid s then None else r_units r !! s.
 
   Definition g_get_symbol (s : string) : res string :=
-    match (if symexact then r_units r !! s else None) with
+    match (if symexact then g_exact s else None) with
     | Some d => Ok (u_symbol d)
     | None =>
         match cand s with
@@ -134,7 +148,7 @@ Section Resolve.
     end.
 
   Definition g_resolve (s : string) : res udef :=
-    match r_units r !! s with
+    match g_exact s with
     | Some d => Ok d
     | None =>
         match cand s with
@@ -142,40 +156,67 @@ Section Resolve.
         | (p, u) :: _ =>
             if String.eqb p "" then
               match r_units r !! u with Some d => Ok d | None => Err EKey end
+            else if noreplace then
+              (* the repaired [get_name] builds the definition only when the name is new *)
+              match r_units r !! (p ++ u) with
+              | Some d => match r_prefixes r !! p, r_units r !! u with
+                          | Some _, Some ud => if negb (u_multiplicative ud) then Err EOffset else Ok d
+                          | _, _ => Err EKey
+                          end
+              | None => g_prefixed_def p u
+              end
             else g_prefixed_def p u
         end
     end.
 
   Definition g_get_name (s : string) : res string :=
-    if String.eqb s "dimensionless" then Ok "" else d ←r g_resolve s; Ok (u_name d).
+    if String.eqb s "dimensionless" then Ok ""
+    else match g_exact s with
+         | Some d => Ok (u_name d)
+         | None =>
+             match cand s with
+             | [] => Err (EUndefined s)
+             | (p, u) :: _ =>
+                 if String.eqb p "" then
+                   match r_units r !! u with Some d => Ok (u_name d) | None => Err EKey end
+                 else d ←r g_resolve s; Ok (if noreplace then p ++ u else u_name d)
+             end
+         end.
 
-  (** the unit table after [get_name s] (for [s] other than "dimensionless") *)
-  Definition g_register (s : string) : reg :=
-    match r_units r !! s with
-    | Some _ => r
+  (** the unit table after [get_name s] (for [s] other than "dimensionless"), and the name that was
+      newly registered, if any *)
+  Definition g_register (s : string) : reg * option string :=
+    match g_exact s with
+    | Some _ => (r, None)
     | None =>
         match cand s with
         | (p, u) :: _ =>
-            if String.eqb p "" then r else
+            if String.eqb p "" then (r, None) else
+            if noreplace && bool_decide (is_Some (r_units r !! (p ++ u))) then (r, None) else
             match g_prefixed_def p u with
-            | Ok d => Reg (<[p ++ u := d]> (r_units r)) (r_unit_names r) (r_prefixes r)
-                          (r_prefix_keys r) (r_dims r) (r_base_units r)
-            | Err _ => r
+            | Ok d => (Reg (<[p ++ u := d]> (r_units r)) (r_unit_names r) (r_prefixes r)
+                           (r_prefix_keys r) (r_dims r) (r_base_units r),
+                       if bool_decide (r_units r !! (p ++ u) = None) then Some (p ++ u) else None)
+            | Err _ => (r, None)
             end
-        | [] => r
+        | [] => (r, None)
         end
     end.
 End Resolve.
 
 Definition n_get_name (nr : nreg) (c : cfg) (cs : bool) (s : string) : res string :=
-  g_get_name (n_reg nr) (c_symexact c) (n_cand nr cs) s.
+  g_get_name (n_reg nr) (c_symexact c) (n_hid nr c) (c_lazyfix c) (n_cand nr (n_hid nr c) cs) s.
 Definition n_get_symbol (nr : nreg) (c : cfg) (cs : bool) (s : string) : res string :=
-  g_get_symbol (n_reg nr) (c_symexact c) (n_cand nr cs) s.
+  g_get_symbol (n_reg nr) (c_symexact c) (n_hid nr c) (n_cand nr (n_hid nr c) cs) s.
 Definition n_resolve (nr : nreg) (c : cfg) (cs : bool) (s : string) : res udef :=
-  g_resolve (n_reg nr) (c_symexact c) (n_cand nr cs) s.
-Definition n_register (nr : nreg) (c : cfg) (cs : bool) (s : string) : nreg :=
+  g_resolve (n_reg nr) (c_symexact c) (n_hid nr c) (c_lazyfix c) (n_cand nr (n_hid nr c) cs) s.
+(** the state after [get_name s], given the candidate function used for [s] *)
+Definition n_register_with (nr : nreg) (c : cfg) (cand : string → list (string * string)) (s : string) : nreg :=
   if String.eqb s "dimensionless" then nr
-  else NReg (g_register (n_reg nr) (c_symexact c) (n_cand nr cs) s) (n_casei nr) (n_cache nr).
+  else let '(r', new) := g_register (n_reg nr) (c_symexact c) (n_hid nr c) (c_lazyfix c) cand s in
+       NReg r' (n_casei nr) (n_cache nr) (match new with Some k => k :: n_lazy nr | None => n_lazy nr end).
+Definition n_register (nr : nreg) (c : cfg) (cs : bool) (s : string) : nreg :=
+  n_register_with nr c (n_cand nr (n_hid nr c) cs) s.
 
 (** * [parse_units_as_container] *)
 Inductive ekind := KUndefined | KOffset | KAttribute | KValue | KOther.
@@ -244,7 +285,7 @@ Fixpoint pu_fold (c : cfg) (cs as_delta many : bool) (nr : nreg) (acc : uc) (l :
   end.
 
 Definition cache_put (nr : nreg) (text : string) (u : uc) : nreg :=
-  NReg (n_reg nr) (n_casei nr) (<[text := u]> (n_cache nr)).
+  NReg (n_reg nr) (n_casei nr) (<[text := u]> (n_cache nr)) (n_lazy nr).
 
 (** [text] is the input string (key of the parse cache), [toks] its tokens *)
 Definition parse_units_st (nr : nreg) (c : cfg) (text : string) (toks : list tok)
